@@ -15,8 +15,17 @@ LEVEL = 'proof'
 # context -> register bits, harness source, extra compiler flags
 CTXS = {
     'avx': dict(bits=256, src='h_c12_avx.cpp', extra=['-mavx2', '-mfma']),
+    'sse': dict(bits=128, src='h_c12_sse.cpp', extra=['-msse4.1']),
+    'v128': dict(bits=128, src='h_c12_v128.cpp', extra=[]),
+    'v256': dict(bits=256, src='h_c12_v256.cpp', extra=[]),
+    'v512': dict(bits=512, src='h_c12_v512.cpp', extra=[]),
+    'simde512': dict(bits=512, src='h_c12_simde512.cpp', extra=['-mavx2', '-mfma']),
 }
+# contexts that also get an ASan+UBSan build (out-of-buffer packed loads / stores abort there)
+SAN_CTXS = {'quick': ['avx', 'sse'], 'thorough': ['avx', 'sse', 'v128', 'v256', 'v512', 'simde512']}
+NO_MASKOPS = {'simde512'}        # installed SIMDe lacks simde_kxor_mask*/simde_knot_mask*: hardshrink/softshrink/hardswish do not compile
 DTYPES = {'f32': (np.float32, 4), 'f64': (np.float64, 8)}
+NO_MATMUL_F64 = {'simde512'}     # simd_op_t<simde_avx512_t,double>::fmadd does not compile
 
 UNARY_MODEL_OPS = ['floor', 'relu', 'ceil', 'relu6']            # exact on integer data, evaluated by the Lean model
 UNARY_NUMPY_OPS = ['sqrt', 'ceil', 'floor']                     # IEEE-exact in NumPy: bit patterns compared
@@ -60,6 +69,9 @@ def harness_specs(tier):
     specs = []
     for c, d in CTXS.items():
         specs.append(dict(name=hname(c), src=d['src'], flavour='fast', extra=d['extra']))
+    for c in SAN_CTXS[tier]:
+        specs.append(dict(name=hname(c, True), src=CTXS[c]['src'], flavour='san', extra=CTXS[c]['extra']))
+    specs.append(dict(name='h_c12_enum', src='h_c12_enum.cpp', flavour='fast'))
     return specs
 
 
@@ -155,6 +167,8 @@ def gen_unary(ctx, tier, rng):
             # values: every op, eighth-valued data, bitwise against the scalar evaluator (and NumPy where IEEE-exact)
             ops = UNARY_ALL_OPS if (tier == 'thorough' or len(shape) > 1 or n in (1, L - 1, L, L + 1, 2 * L + 1, 4 * L + 1)) else [UNARY_ALL_OPS[si % len(UNARY_ALL_OPS)], 'sqrt']
             for op in ops:
+                if ctx in NO_MASKOPS and op in ('hardshrink', 'softshrink', 'hardswish'):
+                    continue
                 data = [rng.randint(-64, 64) / 8.0 for _ in range(n)]
                 if op == 'sqrt':
                     data = [abs(v) for v in data]
@@ -169,9 +183,282 @@ def gen_unary(ctx, tier, rng):
                 yield Case(req, h, dom=True, oracle=exp, model=False, nontrivial=nt, tags=['unary', 'ctx=' + ctx, dt, 'values', 'op=' + op])
 
 
+BIN_NP = {'add': np.add, 'subtract': np.subtract, 'multiply': np.multiply, 'divide': np.divide}
+MODEL_BIN_OPS = ['add', 'subtract', 'multiply']
+
+
+def int_operands(op, nl, nr, rng):
+    """integer data, exact in float32, revealing which element was read (add: lhs id + 1000*rhs id)"""
+    if op == 'multiply':
+        return [k % 13 + 2 for k in range(nl)], [(k * 7) % 11 + 1 for k in range(nr)]
+    if op == 'subtract':
+        return [3 * (k + 1) for k in range(nl)], [1000 * (k + 1) for k in range(nr)]
+    return [k + 1 for k in range(nl)], [1000 * (k + 1) for k in range(nr)]
+
+
+def bcast_ok(ls, rs):
+    if len(ls) != len(rs):
+        return False
+    return all(a == b or a == 1 or b == 1 for a, b in zip(ls, rs))
+
+
+def binary_case(ctx, dt, L, op, ls, rs, ll, rl, ldata, rdata, as_int, tags, model=True, dom=None, h=None):
+    x = logical(ldata, ls, ll, dt)
+    y = logical(rdata, rs, rl, dt)
+    with np.errstate(all='ignore'):
+        z = BIN_NP[op](x, y)
+    oshape = list(z.shape)
+    vals = ints_str(z) if as_int else hexbits(z, dt)
+    exp = 'ok shape=%s val=%s' % (fmt(oshape), vals)
+    req = 'binary dtype=%s op=%s lanes=%d lshape=%s llayout=%s rshape=%s rlayout=%s fmt=%s show=1 ldata=%s rdata=%s' % (
+        dt, op, L, fmt(ls), ll, fmt(rs), rl, 'int' if as_int else 'hex', fdata(ldata), fdata(rdata))
+    if dom is None:
+        dom = (ll == 'row' and rl == 'row') and not pred_bcast_1x1(None, ls, rs)
+    return Case(req, h or hname(ctx), dom=dom, oracle=exp, model=model, nontrivial=(prod(oshape) >= L),
+                tags=['binary', 'ctx=' + ctx, dt, 'op=' + op] + tags)
+
+
+def bcast_patterns(R, C):
+    full, row, col, one = [R, C], [1, C], [R, 1], [1, 1]
+    pats = [(full, row), (row, full), (full, col), (col, full), (col, row), (row, col), (full, one), (one, full),
+            (col, one), (one, col), (row, one), (one, row)]
+    seen, out = set(), []
+    for l, r in pats:
+        k = (tuple(l), tuple(r))
+        if k not in seen:
+            seen.add(k); out.append((l, r))
+    return out
+
+
+def gen_binary(ctx, tier, rng):
+    for dt in DTYPES:
+        L = lanes_of(ctx, dt)
+        # same shape, every element count
+        for n in range(1, 4 * L + 2):
+            op = MODEL_BIN_OPS[n % 3] if n % 4 == 0 else 'add'
+            ld, rd = int_operands(op, n, n, rng)
+            yield binary_case(ctx, dt, L, op, [n], [n], 'row', 'row', ld, rd, True, ['same-shape', 'model'])
+            vop = ['add', 'subtract', 'multiply', 'divide'][n % 4]
+            ld = [rng.randint(-64, 64) / 8.0 for _ in range(n)]
+            rd = [(rng.randint(1, 64) / 8.0) * rng.choice([-1, 1]) for _ in range(n)]
+            yield binary_case(ctx, dt, L, vop, [n], [n], 'row', 'row', ld, rd, False, ['same-shape', 'values'], model=False)
+        for shape in ([2, L + 1], [3, 2, L - 1]):
+            for ll, rl in (('row', 'row'), ('col', 'col'), ('row', 'col')):
+                ld, rd = int_operands('add', prod(shape), prod(shape), rng)
+                yield binary_case(ctx, dt, L, 'add', shape, shape, ll, rl, ld, rd, True, ['same-shape', 'model', 'layout=%s/%s' % (ll, rl)])
+        # 2-d broadcasting, every pattern
+        Cs = sorted(set([1, 2, L - 1, L, L + 1, 2 * L + 1] if tier == 'quick' else list(range(1, 2 * L + 2)) + [4 * L + 1]))
+        Rs = [1, 2, 3] if tier == 'quick' else [1, 2, 3, 5]
+        k = 0
+        for R in Rs:
+            for C in Cs:
+                for ls, rs in bcast_patterns(R, C):
+                    k += 1
+                    op = MODEL_BIN_OPS[k % 3] if k % 5 == 0 else 'add'
+                    ld, rd = int_operands(op, prod(ls), prod(rs), rng)
+                    tag = 'same-shape' if ls == rs else 'bcast2d'
+                    yield binary_case(ctx, dt, L, op, ls, rs, 'row', 'row', ld, rd, True, [tag, 'model'])
+                    if k % 3 == 0:
+                        vop = ['add', 'subtract', 'multiply', 'divide'][(k // 3) % 4]
+                        ld = [rng.randint(-64, 64) / 8.0 for _ in range(prod(ls))]
+                        rd = [(rng.randint(1, 64) / 8.0) * rng.choice([-1, 1]) for _ in range(prod(rs))]
+                        yield binary_case(ctx, dt, L, vop, ls, rs, 'row', 'row', ld, rd, False, [tag, 'values'], model=False)
+                    if k % 7 == 0 and layout_matters(ls):
+                        ld, rd = int_operands('add', prod(ls), prod(rs), rng)
+                        yield binary_case(ctx, dt, L, 'add', ls, rs, 'col', 'row', ld, rd, True, [tag, 'model', 'layout=col/row'])
+
+
+def outer_case(ctx, dt, L, op, ls, rs, ll, rl, ldata, rdata, as_int, tags, model=True):
+    x = logical(ldata, ls, ll, dt)
+    y = logical(rdata, rs, rl, dt)
+    z = BIN_NP[op].outer(x, y)
+    exp = 'ok shape=%s val=%s' % (fmt(ls + rs), ints_str(z) if as_int else hexbits(z, dt))
+    req = 'outer dtype=%s op=%s lanes=%d lshape=%s llayout=%s rshape=%s rlayout=%s fmt=%s show=1 ldata=%s rdata=%s' % (
+        dt, op, L, fmt(ls), ll, fmt(rs), rl, 'int' if as_int else 'hex', fdata(ldata), fdata(rdata))
+    return Case(req, hname(ctx), dom=(ll == 'row' and rl == 'row'), oracle=exp, model=model, nontrivial=(rs[-1] >= L),
+                tags=['outer', 'ctx=' + ctx, dt, 'op=' + op, 'dims=%d,%d' % (len(ls), len(rs))] + tags)
+
+
+def gen_outer(ctx, tier, rng):
+    for dt in DTYPES:
+        L = lanes_of(ctx, dt)
+        pairs = [([m], [n]) for m in (1, 3) for n in range(1, (2 if tier == 'quick' else 4) * L + 2)]
+        lasts = [1, L - 1, L, L + 1, 2 * L + 1]
+        pairs += [([2, 2], [c]) for c in lasts] + [([2], [2, c]) for c in lasts] + [([2, 3], [2, c]) for c in lasts]
+        pairs += [([2, 1, 2], [c]) for c in lasts] + [([2], [2, 1, c]) for c in lasts] + [([1, 2, 2], [2, 1, c]) for c in lasts]
+        pairs += [([2, 3], [2, 2, c]) for c in lasts]
+        for k, (ls, rs) in enumerate(pairs):
+            op = MODEL_BIN_OPS[k % 3] if k % 4 == 0 else 'add'
+            ld, rd = int_operands(op, prod(ls), prod(rs), rng)
+            yield outer_case(ctx, dt, L, op, ls, rs, 'row', 'row', ld, rd, True, ['model'])
+            if k % 4 == 1:
+                vop = ['add', 'subtract', 'multiply'][(k // 4) % 3]
+                ld = [rng.randint(-64, 64) / 8.0 for _ in range(prod(ls))]
+                rd = [rng.randint(-64, 64) / 8.0 for _ in range(prod(rs))]
+                yield outer_case(ctx, dt, L, vop, ls, rs, 'row', 'row', ld, rd, False, ['values'], model=False)
+            if k % 9 == 2 and (layout_matters(ls) or layout_matters(rs)):
+                ld, rd = int_operands('add', prod(ls), prod(rs), rng)
+                yield outer_case(ctx, dt, L, 'add', ls, rs, 'col' if layout_matters(ls) else 'row', 'col' if layout_matters(rs) else 'row', ld, rd, True, ['model', 'layout=col'])
+
+
+RED_NP = {'add': np.add, 'multiply': np.multiply, 'subtract': np.subtract}
+
+
+def reduce_data(op, n, rng):
+    if op == 'multiply':
+        d = [1] * n
+        for _ in range(min(n, 9)):
+            d[rng.randrange(n)] = rng.choice([2, 3])
+        return d
+    d = list(range(1, n + 1))
+    rng.shuffle(d)
+    return d
+
+
+def reduce_case(ctx, dt, L, op, shape, layout, axis, keep, data, tags, as_int=True, model=True, tol=None, h=None):
+    x = logical(data, shape, layout, dt)
+    if as_int:
+        xr = x.astype(np.float64)
+        z = RED_NP[op].reduce(xr, axis=axis, keepdims=bool(keep))
+        oshape = 'num' if (axis is None and not keep) else fmt(list(np.shape(z)))
+        exp = 'ok shape=%s val=%s' % (oshape, ints_str(z))
+        extra = 'fmt=int show=1 tolabs=0'
+    else:
+        z = RED_NP[op].reduce(x.astype(np.float64), axis=axis, keepdims=bool(keep))
+        oshape = 'num' if (axis is None and not keep) else fmt(list(np.shape(z)))
+        exp = 'ok shape=%s agree' % oshape
+        extra = 'fmt=hex show=0 tolabs=%s tolrel=%s' % (repr(float(tol[0])), repr(float(tol[1])))
+    req = 'reduce dtype=%s op=%s lanes=%d shape=%s layout=%s axis=%s keepdims=%d %s data=%s' % (
+        dt, op, L, fmt(shape), layout, 'None' if axis is None else str(axis), keep, extra, fdata(data))
+    c = Case(req, h or hname(ctx), dom=False, oracle=exp, model=model, nontrivial=(prod(shape) >= L),
+             tags=['reduce', 'ctx=' + ctx, dt, 'op=' + op, 'axis=' + ('None' if axis is None else ('neg' if axis < 0 else 'k')), 'keepdims=%d' % keep] + tags)
+    c.dom = not any(p(c) for p in (pred_colmajor, pred_reduce_out1_nonadd, pred_reduce_noidentity, pred_reduce_negaxis))
+    return c
+
+
+def reduce_shapes(L, tier):
+    one = [[n] for n in range(1, 4 * L + 2)]
+    Cs = [1, 2, L - 1, L, L + 1, 2 * L + 1]
+    two = [[r, c] for r in (1, 2, 3, 5) for c in Cs]
+    nd = [[2, 3, L + 1], [2, L, 3], [L + 1, 2, 2], [2, 1, 3, L - 1], [2, 2, 2, 3], [1, 3, 1]]
+    if tier == 'thorough':
+        two += [[r, c] for r in (4, L, 2 * L + 1) for c in range(1, 2 * L + 2)]
+        nd += [[3, L - 1, 2], [2, 2, 2 * L + 1], [3, 2, 2, 2, 2]]
+    return one, two, nd
+
+
+def gen_reduce(ctx, tier, rng):
+    for dt in DTYPES:
+        L = lanes_of(ctx, dt)
+        eps = 2.0 ** -23 if dt == 'f32' else 2.0 ** -52
+        one, two, nd = reduce_shapes(L, tier)
+        k = 0
+        for shape in one + two + nd:
+            dim = len(shape)
+            axes = list(range(dim)) + [None, -1]
+            for axis in axes:
+                for keep in (0, 1):
+                    k += 1
+                    if dim == 1 and axis == -1 and keep == 1 and tier == 'quick':
+                        continue
+                    op = 'multiply' if k % 3 == 0 else 'add'
+                    yield reduce_case(ctx, dt, L, op, shape, 'row', axis, keep, reduce_data(op, prod(shape), rng), ['model'])
+                    if k % 6 == 1:
+                        # non-integer data: tolerance = n * eps * sum|a| (add) / relative n * eps (multiply)
+                        n = prod(shape)
+                        if k % 12 == 1:
+                            data = [rng.randint(-800, 800) / 64.0 for _ in range(n)]
+                            tol = (4 * n * eps * sum(abs(v) for v in data), 0.0)
+                            yield reduce_case(ctx, dt, L, 'add', shape, 'row', axis, keep, data, ['values'], as_int=False, model=False, tol=tol)
+                        else:
+                            data = [rng.randint(48, 80) / 64.0 for _ in range(n)]
+                            tol = (0.0, 4 * n * eps)
+                            yield reduce_case(ctx, dt, L, 'multiply', shape, 'row', axis, keep, data, ['values'], as_int=False, model=False, tol=tol)
+            if dim >= 2:
+                # column-major operand, subtract (no identity), negative axes below -1
+                yield reduce_case(ctx, dt, L, 'add', shape, 'col', k % dim, k % 2, reduce_data('add', prod(shape), rng), ['model', 'layout=col'])
+                yield reduce_case(ctx, dt, L, 'subtract', shape, 'row', k % dim, k % 2, reduce_data('add', prod(shape), rng), ['model', 'no-identity'])
+                if prod(shape) <= 4 * L:
+                    yield reduce_case(ctx, dt, L, 'add', shape, 'row', -2 - (k % (dim - 1)), k % 2, reduce_data('add', prod(shape), rng), ['negative-axis'], model=False)
+
+
+def gen_matmul(ctx, tier, rng):
+    for dt in DTYPES:
+        if ctx in NO_MATMUL_F64 and dt == 'f64':
+            continue
+        L = lanes_of(ctx, dt)
+        eps = 2.0 ** -23 if dt == 'f32' else 2.0 ** -52
+        Ks = sorted(set([1, 2, L - 1, L, L + 1, 2 * L + 1, 3 * L]))
+        for M in (1, 2, 3):
+            for Nn in (1, 2, 5):
+                for K in Ks:
+                    ld = [rng.randint(-9, 9) for _ in range(M * K)]
+                    rd = [rng.randint(-9, 9) for _ in range(K * Nn)]
+                    x = logical(ld, [M, K], 'row', 'f64')
+                    y = logical(rd, [K, Nn], 'col', 'f64')
+                    exp = 'ok shape=%s val=%s' % (fmt([M, Nn]), ints_str(x @ y))
+                    req = 'matmul dtype=%s op=matmul lanes=%d lshape=%s rshape=%s fmt=int show=1 tolabs=0 ldata=%s rdata=%s' % (dt, L, fmt([M, K]), fmt([K, Nn]), fdata(ld), fdata(rd))
+                    yield Case(req, hname(ctx), dom=True, oracle=exp, nontrivial=(K >= L), tags=['matmul', 'ctx=' + ctx, dt, 'model'])
+                    if (M + Nn + K) % 3 == 0:
+                        ld = [rng.randint(-64, 64) / 8.0 for _ in range(M * K)]
+                        rd = [rng.randint(-64, 64) / 8.0 for _ in range(K * Nn)]
+                        tol = 4 * K * eps * max(1.0, float(np.max(np.abs(logical(ld, [M, K], 'row', 'f64')) @ np.abs(logical(rd, [K, Nn], 'col', 'f64')))))
+                        req = 'matmul dtype=%s op=matmul lanes=%d lshape=%s rshape=%s fmt=hex show=0 tolabs=%s tolrel=0 ldata=%s rdata=%s' % (dt, L, fmt([M, K]), fmt([K, Nn]), repr(tol), fdata(ld), fdata(rd))
+                        yield Case(req, hname(ctx), dom=True, oracle='ok shape=%s agree' % fmt([M, Nn]), model=False, nontrivial=(K >= L), tags=['matmul', 'ctx=' + ctx, dt, 'values'])
+
+
+def gen_enum(tier, rng):
+    """the pure enumerators against the Lean model, tuple by tuple (no oracle: the theorems are about the model)"""
+    h = 'h_c12_enum'
+    for L in (2, 4, 8, 16):
+        Cs = sorted(set([1, 2, 3, L - 1, L, L + 1, 2 * L, 2 * L + 1, 3 * L + 2]))
+        for R in (1, 2, 3):
+            for C in Cs:
+                for ls, rs in bcast_patterns(R, C):
+                    if ls == rs:
+                        continue
+                    yield Case('enum_binary2d lanes=%d out=%s lhs=%s rhs=%s' % (L, fmt([R, C]), fmt(ls), fmt(rs)), h,
+                               dom=True, nontrivial=(C >= L), tags=['enum', 'enum_binary2d', 'lanes=%d' % L])
+        shapes = [[n] for n in (1, L - 1, L, 2 * L + 1)] + [[r, c] for r in (1, 2, 3) for c in Cs] + \
+                 [[2, 3, C] for C in Cs] + [[2, C, 3] for C in (1, 2, L, L + 1)] + [[C, 2, 2] for C in (1, 3, L + 1)] + [[2, 1, 3, L + 1], [2, 2, 2, 3]]
+        for shape in shapes:
+            dim = len(shape)
+            for axis in range(dim):
+                out = list(shape); out[axis] = 1
+                kind = 'h' if axis == dim - 1 else 'v'
+                yield Case('enum_reduce lanes=%d kind=%s out=%s inp=%s axis=%d' % (L, kind, fmt(out), fmt(shape), axis), h,
+                           dom=True, nontrivial=(prod(shape) >= L), tags=['enum', 'enum_reduce', 'kind=' + kind, 'lanes=%d' % L])
+        for ls, rs in [([m], [c]) for m in (1, 3) for c in Cs] + [([2, 2], [c]) for c in Cs] + [([2], [3, c]) for c in Cs] + \
+                [([2, 3], [2, c]) for c in Cs] + [([2, 1, 2], [c]) for c in Cs[:5]] + [([2], [2, 1, c]) for c in Cs[:5]] + \
+                [([1, 2, 2], [2, 1, c]) for c in Cs[:5]] + [([2, 3], [2, 2, c]) for c in Cs[:5]]:
+            yield Case('enum_outer lanes=%d lhs=%s rhs=%s' % (L, fmt(ls), fmt(rs)), h, dom=True, nontrivial=(rs[-1] >= L),
+                       tags=['enum', 'enum_outer', 'lanes=%d' % L])
+        for M in (1, 2, 3):
+            for Nn in (1, 3):
+                for K in Cs:
+                    yield Case('enum_matmul lanes=%d lhs=%s rhs=%s' % (L, fmt([M, K]), fmt([K, Nn])), h, dom=True, nontrivial=(K >= L),
+                               tags=['enum', 'enum_matmul', 'lanes=%d' % L])
+
+
+def memory_unsafe(c):
+    """input classes on which the unchanged code leaves its buffers: only ever sent to a sanitizer build
+    (a plain build would corrupt its heap and poison the answers to later requests)"""
+    return pred_bcast_1x1(c) or pred_reduce_negaxis(c)
+
+
 def gen(tier, rng):
+    yield from gen_enum(tier, rng)
     for ctx in CTXS:
-        yield from gen_unary(ctx, tier, rng)
+        san = ctx in SAN_CTXS[tier]
+        for g in (gen_unary, gen_binary, gen_outer, gen_reduce, gen_matmul):
+            for c in g(ctx, tier, rng):
+                unsafe = memory_unsafe(c)
+                if not unsafe:
+                    yield c
+                if san and ('model' in c.tags or unsafe):
+                    # the same request through the ASan+UBSan build
+                    yield Case(c.req, hname(ctx, True), dom=c.dom, oracle=c.oracle, model=False, nontrivial=c.nontrivial,
+                               tags=[t for t in c.tags if t != 'model'] + ['san'])
 
 
 # ------------------------------------------------------------------------------------------------
@@ -196,6 +483,52 @@ def pred_colmajor(case):
     return False
 
 
+
+def pred_bcast_1x1(case, ls=None, rs=None):
+    """BROADCASTED_2D with a (1,1) operand while the result has more than one row: operand index = simd_row"""
+    if case is not None:
+        kind, a = _args(case)
+        if kind != 'binary':
+            return False
+        ls, rs = _shape(a['lshape']), _shape(a['rshape'])
+    if len(ls) != 2 or len(rs) != 2 or ls == rs:
+        return False
+    R = max(ls[0], rs[0])
+    return R > 1 and (ls == [1, 1] or rs == [1, 1])
+
+
+def _reduce_out_size(a):
+    shape = _shape(a['shape'])
+    if a['axis'] == 'None':
+        return 1
+    ax = int(a['axis'])
+    if ax < 0:
+        ax += len(shape)
+    return prod(shape) // max(1, shape[ax]) if 0 <= ax < len(shape) else None
+
+
+def pred_reduce_out1_nonadd(case):
+    """reduction whose output has exactly one element (axis=None, 1-d, ...) with an op for which 0 is not an identity"""
+    kind, a = _args(case)
+    return kind == 'reduce' and a['op'] != 'add' and _reduce_out_size(a) == 1 and prod(_shape(a['shape'])) >= 1
+
+
+def pred_reduce_noidentity(case):
+    """reduce of an op without identity() (subtract): SIMD starts from 0 instead of the first element"""
+    kind, a = _args(case)
+    return kind == 'reduce' and a['op'] == 'subtract'
+
+
+def pred_reduce_negaxis(case):
+    """negative reduction axis other than -1"""
+    kind, a = _args(case)
+    return kind == 'reduce' and a['axis'] != 'None' and int(a['axis']) < -1
+
+
 KNOWN_PREDICATES = {
     'colmajor_operand': pred_colmajor,
+    'bcast2d_1x1_operand': pred_bcast_1x1,
+    'reduce_out1_nonadd': pred_reduce_out1_nonadd,
+    'reduce_no_identity': pred_reduce_noidentity,
+    'reduce_negative_axis': pred_reduce_negaxis,
 }
